@@ -1,6 +1,678 @@
-(* Proofs/QuoteProofs.v — proofs about Syntax/Quote.v *)
-From Verif Require Import Base.Str Base.Utf8 Syntax.Quote.
+(* Proofs/QuoteProofs.v — proofs about Syntax/Quote.v (C13). *)
+From Verif Require Import Base.Str Base.Utf8 Syntax.Quote Proofs.Utf8Proofs.
+From Coq Require Import ZifyN ZifyNat ZifyBool.
 Open Scope N_scope.
 
-Lemma quote_empty : forall ip l, quote ip [] l = Ok [39; 39].
+(* ------------------------------------------------------------------ *)
+(* multi-step view of the unquote transducer *)
+
+Fixpoint usteps (l : lang) (st : ustate) (q : str) : option (ustate * str) :=
+  match q with
+  | [] => Some (st, [])
+  | c :: t =>
+      match step l st c with
+      | None => None
+      | Some (st', o) =>
+          match usteps l st' t with
+          | Some (st'', o') => Some (st'', o ++ o')
+          | None => None
+          end
+      end
+  end.
+
+Lemma usteps_app : forall l a b st st1 o1 st2 o2,
+  usteps l st a = Some (st1, o1) -> usteps l st1 b = Some (st2, o2) ->
+  usteps l st (a ++ b) = Some (st2, o1 ++ o2).
+Proof.
+  induction a as [|c a IH]; intros b st st1 o1 st2 o2 Ha Hb; cbn [usteps app] in *.
+  - inversion Ha; subst. rewrite Hb. reflexivity.
+  - destruct (step l st c) as [[st' o]|]; [|discriminate].
+    destruct (usteps l st' a) as [[st'' o']|] eqn:E; [|discriminate].
+    inversion Ha; subst. rewrite (IH b st' st1 o' st2 o2 E Hb). rewrite app_assoc. reflexivity.
+Qed.
+
+Lemma urun_app : forall l a b st st1 o1,
+  usteps l st a = Some (st1, o1) ->
+  urun l st (a ++ b) = match urun l st1 b with Some r => Some (o1 ++ r) | None => None end.
+Proof.
+  induction a as [|c a IH]; intros b st st1 o1 Ha; cbn [usteps app urun] in *.
+  - inversion Ha; subst. destruct (urun l st1 b); reflexivity.
+  - destruct (step l st c) as [[st' o]|]; [|discriminate].
+    destruct (usteps l st' a) as [[st'' o']|] eqn:E; [|discriminate].
+    inversion Ha; subst. rewrite (IH b st' st1 o' E).
+    destruct (urun l st1 b); [rewrite app_assoc|]; reflexivity.
+Qed.
+
+(* a run of bytes that the state passes through unchanged *)
+Lemma usteps_plain : forall l st (P : N -> Prop),
+  (forall c, P c -> step l st c = Some (st, [c])) ->
+  forall bs, Forall P bs -> usteps l st bs = Some (st, bs).
+Proof.
+  intros l st P HP. induction bs as [|c bs IH]; intros HF; cbn [usteps]; [reflexivity|].
+  inversion HF; subst. rewrite (HP c) by assumption. rewrite IH by assumption. reflexivity.
+Qed.
+
+(* ------------------------------------------------------------------ *)
+(* bytes of one rune entry *)
+
+Lemma ws_high : forall b, 128 <= b -> word_special b = false.
+Proof. intros b H. unfold word_special, mem_N; cbn [existsb]. lia. Qed.
+
+Lemma word_special_shell_char : forall c, word_special c = shell_char c.
 Proof. reflexivity. Qed.
+
+Lemma firstn_len : forall (bs : str), firstn (length bs) bs = bs.
+Proof. intros. apply firstn_all. Qed.
+
+(* a valid entry: its bytes are the encoding of its rune, one ASCII byte or all >= 0x80 *)
+Lemma entry_valid : forall r bs, entry_ok (r, bs) -> invalid_rune r bs = false ->
+  encode_rune r = bs /\ ((r < 128 /\ bs = [r]) \/ (128 <= r /\ Forall (fun b => 128 <= b) bs)).
+Proof.
+  intros r bs [Hne D] Hinv; cbn [fst snd] in *. unfold invalid_rune in Hinv.
+  split.
+  - transitivity (firstn (length bs) bs); [|apply firstn_len]. apply (encode_decode bs r (length bs) D Hne).
+    intros [H1 H2]. rewrite H1, H2 in Hinv. cbn in Hinv. discriminate.
+  - destruct (length bs) as [|[|n]] eqn:L.
+    + destruct bs; [congruence | discriminate].
+    + destruct (decode_size1 bs r D) as (b & t & -> & Hc). cbn in L.
+      assert (t = []) by (destruct t; [reflexivity | discriminate]); subst t.
+      destruct Hc as [[-> Hb] | [-> Hb]].
+      * left; split; [assumption | reflexivity].
+      * cbn in Hinv. discriminate.
+    + right. destruct (decode_high bs r _ D ltac:(lia)) as [H1 H2].
+      rewrite <- L, firstn_len in H2. split; assumption.
+Qed.
+
+(* any entry: a byte below 0x80 in it is the rune itself *)
+Lemma entry_bytes : forall r bs, entry_ok (r, bs) ->
+  (r < 128 /\ bs = [r]) \/ (128 <= r /\ Forall (fun b => 128 <= b) bs).
+Proof.
+  intros r bs [Hne D]; cbn [fst snd] in *.
+  destruct (length bs) as [|[|n]] eqn:L.
+  - destruct bs; [congruence | discriminate].
+  - destruct (decode_size1 bs r D) as (b & t & -> & Hc). cbn in L.
+    assert (t = []) by (destruct t; [reflexivity | discriminate]); subst t.
+    destruct Hc as [[-> Hb] | [-> Hb]].
+    + left; split; [assumption | reflexivity].
+    + right. split; [unfold RuneError; lia | repeat constructor; assumption].
+  - right. destruct (decode_high bs r _ D ltac:(lia)) as [H1 H2].
+    rewrite <- L, firstn_len in H2. split; assumption.
+Qed.
+
+(* ------------------------------------------------------------------ *)
+(* the first loop *)
+
+Section WithPrint.
+  Variable ip : N -> bool.
+
+  Definition has0 (rs : list (N * str)) : bool := existsb (fun e => fst e =? 0) rs.
+  Definition hasnp (rs : list (N * str)) : bool := existsb (fun e => non_print ip (fst e) (snd e)) rs.
+  Definition hassc (rs : list (N * str)) : bool := existsb (fun e => shell_char (fst e)) rs.
+
+  Lemma scan_ok : forall l rs offs sc np sc' np',
+    scan ip l rs offs sc np = Ok (sc', np') ->
+    has0 rs = false /\ sc' = sc || hassc rs /\ np' = np || hasnp rs /\
+    (is_posix l = true -> hasnp rs = false).
+  Proof.
+    induction rs as [|[r bs] rs IH]; intros offs sc np sc' np' H; cbn [scan has0 hasnp hassc existsb fst snd] in *.
+    - inversion H; subst. rewrite !orb_false_r. auto.
+    - destruct (r =? 0) eqn:E0; [discriminate|].
+      destruct (non_print ip r bs) eqn:Enp.
+      + destruct (is_posix l) eqn:Ep; [discriminate|].
+        apply IH in H. destruct H as (H0 & Hsc & Hnp & Hp). fold (has0 rs) (hasnp rs) (hassc rs).
+        rewrite H0, Hsc, Hnp. repeat split; try reflexivity.
+        * rewrite orb_assoc. reflexivity.
+        * cbn. rewrite orb_true_r. reflexivity.
+        * discriminate.
+      + apply IH in H. destruct H as (H0 & Hsc & Hnp & Hp). fold (has0 rs) (hasnp rs) (hassc rs).
+        rewrite H0, Hsc, Hnp. repeat split; try reflexivity.
+        * rewrite orb_assoc. reflexivity.
+        * assumption.
+  Qed.
+
+  Lemma scan_not_panic : forall l rs offs sc np, scan ip l rs offs sc np <> Panic.
+  Proof.
+    induction rs as [|[r bs] rs IH]; intros; cbn [scan]; [discriminate|].
+    destruct (r =? 0); [discriminate|]. destruct (non_print ip r bs); [destruct (is_posix l); [discriminate|]|]; apply IH.
+  Qed.
+
+  Lemma scan_err_iff : forall l rs offs sc np,
+    (exists c, scan ip l rs offs sc np = Err c) <->
+    (has0 rs = true \/ (is_posix l = true /\ hasnp rs = true)).
+  Proof.
+    induction rs as [|[r bs] rs IH]; intros offs sc np; cbn [scan has0 hasnp existsb fst snd].
+    - split; [intros [c H]; discriminate | intros [H | [_ H]]; discriminate].
+    - fold (has0 rs) (hasnp rs).
+      destruct (r =? 0) eqn:E0.
+      + split; [intros _; left; reflexivity | intros _; eexists; reflexivity].
+      + destruct (non_print ip r bs) eqn:Enp.
+        * destruct (is_posix l) eqn:Ep.
+          -- split; [intros _; right; split; reflexivity | intros _; eexists; reflexivity].
+          -- rewrite IH. cbn [orb]. split; intros [H | [H _]]; try discriminate; left; exact H.
+        * rewrite IH. cbn [orb]. reflexivity.
+  Qed.
+End WithPrint.
+
+(* ------------------------------------------------------------------ *)
+(* strategy 1: unquoted *)
+
+Lemma top_plain : forall l s, Forall (fun c => word_special c = false) s -> usteps l UTop s = Some (UTop, s).
+Proof.
+  intros l. apply usteps_plain. intros c Hc. cbn [step]. rewrite Hc.
+  unfold word_special, mem_N in Hc; cbn [existsb] in Hc.
+  destruct (c =? 39) eqn:E1; [lia|]. destruct (c =? 34) eqn:E2; [lia|]. destruct (c =? 36) eqn:E3; [lia|].
+  reflexivity.
+Qed.
+
+Lemma entries_not_special : forall rs, Forall entry_ok rs -> hassc rs = false ->
+  Forall (fun c => word_special c = false) (concat (map snd rs)).
+Proof.
+  induction rs as [|[r bs] rs IH]; intros Hok Hsc; cbn [map concat snd]; [constructor|].
+  inversion Hok; subst. cbn [hassc existsb fst] in Hsc. apply orb_false_iff in Hsc. destruct Hsc as [Hr Hrs].
+  apply Forall_app. split; [|apply IH; assumption].
+  destruct (entry_bytes r bs H1) as [[_ ->] | [_ Hh]].
+  - constructor; [|constructor]. rewrite word_special_shell_char. exact Hr.
+  - eapply Forall_impl; [|exact Hh]. intros b Hb. apply ws_high. exact Hb.
+Qed.
+
+(* ------------------------------------------------------------------ *)
+(* strategy 2: single quotes *)
+
+Lemma contains_byte_false : forall c s, contains_byte c s = false -> Forall (fun b => (b =? c) = false) s.
+Proof.
+  intros c. unfold contains_byte. induction s as [|x s IH]; intros H; [constructor|].
+  cbn [index_byte] in H. destruct (x =? c) eqn:E; [discriminate|].
+  constructor; [exact E|]. apply IH. destruct (index_byte c s); [discriminate | reflexivity].
+Qed.
+
+Lemma sgl_plain : forall l s, Forall (fun b => (b =? 39) = false) s -> usteps l USgl s = Some (USgl, s).
+Proof.
+  intros l. apply usteps_plain. intros c Hc. cbn [step]. rewrite Hc. reflexivity.
+Qed.
+
+Lemma unquote_single : forall l s, contains_byte 39 s = false -> unquote l ([39] ++ s ++ [39]) = Some s.
+Proof.
+  intros l s H. unfold unquote. cbn [app urun step]. cbn [N.eqb Pos.eqb].
+  rewrite (urun_app l s [39] USgl USgl s (sgl_plain l s (contains_byte_false 39 s H))).
+  cbn. rewrite app_nil_r. reflexivity.
+Qed.
+
+(* ------------------------------------------------------------------ *)
+(* strategy 3: double quotes *)
+
+Definition dq_safe (c : N) : Prop := c <> 34 /\ c <> 92 /\ c <> 36 /\ c <> 96.
+
+Lemma dbl_plain : forall l bs, Forall dq_safe bs -> usteps l UDbl bs = Some (UDbl, bs).
+Proof.
+  intros l. apply usteps_plain. intros c (H1 & H2 & H3 & H4). cbn [step].
+  destruct (c =? 34) eqn:E1; [lia|]. destruct (c =? 92) eqn:E2; [lia|].
+  destruct ((c =? 36) || (c =? 96)) eqn:E3; [lia|]. reflexivity.
+Qed.
+
+Lemma dq_entry : forall l r bs, entry_ok (r, bs) -> invalid_rune r bs = false ->
+  usteps l UDbl ((if mem_N r [34; 92; 96; 36] then [92] else []) ++ encode_rune r) = Some (UDbl, bs).
+Proof.
+  intros l r bs Hok Hinv. destruct (entry_valid r bs Hok Hinv) as [He Hc]. rewrite He.
+  destruct (mem_N r [34; 92; 96; 36]) eqn:Em.
+  - unfold mem_N in Em; cbn [existsb] in Em.
+    destruct Hc as [[_ ->] | [Hr _]]; [|lia].
+    cbn [app usteps step]. 
+    assert (r = 34 \/ r = 92 \/ r = 96 \/ r = 36) as [-> | [-> | [-> | ->]]] by lia; reflexivity.
+  - cbn [app]. apply dbl_plain. unfold mem_N in Em; cbn [existsb] in Em.
+    destruct Hc as [[_ ->] | [_ Hh]].
+    + constructor; [|constructor]. unfold dq_safe. lia.
+    + eapply Forall_impl; [|exact Hh]. intros b Hb. cbv beta in Hb. unfold dq_safe. lia.
+Qed.
+
+Section WithPrint2.
+  Variable ip : N -> bool.
+
+  Lemma dq_run : forall l rs, Forall entry_ok rs -> hasnp ip rs = false ->
+    usteps l UDbl (dq rs) = Some (UDbl, concat (map snd rs)).
+  Proof.
+    induction rs as [|[r bs] rs IH]; intros Hok Hnp; cbn [dq map concat snd]; [reflexivity|].
+    inversion Hok; subst. cbn [hasnp existsb fst snd] in Hnp. apply orb_false_iff in Hnp. destruct Hnp as [Hr Hrs].
+    unfold non_print in Hr. apply orb_false_iff in Hr. destruct Hr as [Hinv _].
+    rewrite app_assoc. eapply usteps_app; [apply dq_entry; assumption | apply IH; assumption].
+  Qed.
+
+  Lemma unquote_double : forall l s, hasnp ip (runes s) = false ->
+    unquote l ([34] ++ dq (runes s) ++ [34]) = Some s.
+  Proof.
+    intros l s H. unfold unquote. cbn [app urun step]. cbn [N.eqb Pos.eqb].
+    rewrite (urun_app l _ [34] UDbl UDbl _ (dq_run l (runes s) (runes_ok s) H)).
+    cbn. rewrite app_nil_r, runes_concat. reflexivity.
+  Qed.
+End WithPrint2.
+
+(* ------------------------------------------------------------------ *)
+(* strategy 4: $'...' *)
+
+Lemma hexval_hexd : forall d, d < 16 -> hexval (hexd d) = Some d.
+Proof.
+  intros d H. unfold hexd, hexval, in_range.
+  destruct (d <? 10) eqn:E.
+  - destruct ((48 <=? 48 + d) && (48 + d <=? 57)) eqn:E1; [f_equal; lia | lia].
+  - destruct ((48 <=? 87 + d) && (87 + d <=? 57)) eqn:E1; [lia|].
+    destruct ((97 <=? 87 + d) && (87 + d <=? 102)) eqn:E2; [f_equal; lia | lia].
+Qed.
+
+Lemma is_hex_hexval : forall c, is_hex c = false -> hexval c = None.
+Proof.
+  intros c H. unfold is_hex in H. unfold hexval.
+  destruct (in_range 48 57 c); [discriminate|]. destruct (in_range 97 102 c); [discriminate|].
+  destruct (in_range 65 70 c); [discriminate|]. reflexivity.
+Qed.
+
+Definition hexkind (k : ukind) : Prop := k = KX \/ k = KU \/ k = KBigU.
+
+Lemma pow16_succ : forall w, 16 ^ N.of_nat (S w) = 16 * 16 ^ N.of_nat w.
+Proof. intros. rewrite Nat2N.inj_succ, N.pow_succ_r'. reflexivity. Qed.
+
+Lemma mod_pow16_succ : forall v w,
+  v mod (16 * 16 ^ N.of_nat w) = ((v / 16 ^ N.of_nat w) mod 16) * 16 ^ N.of_nat w + v mod 16 ^ N.of_nat w.
+Proof.
+  intros v w. set (p := 16 ^ N.of_nat w). assert (p <> 0) by (apply N.pow_nonzero; discriminate).
+  rewrite (N.mul_comm 16 p). rewrite N.mod_mul_r by (try assumption; discriminate). lia.
+Qed.
+
+(* reading exactly w hex digits, the last one triggers emit *)
+Lemma hex_run : forall l k o v w acc nd, hexkind k ->
+  emit k (acc * 16 ^ N.of_nat (S w) + v mod 16 ^ N.of_nat (S w)) = Some o ->
+  usteps l (UAnsiNum k (S w) acc nd) (hex_fixed (S w) v) = Some (after_emit l k, o).
+Proof.
+  intros l k o v. induction w as [|w IH]; intros acc nd Hk He.
+  - cbn [hex_fixed usteps step]. 
+    assert (Hd : digit_of k (hexd ((v / 16 ^ N.of_nat 0) mod 16)) = Some ((v / 16 ^ N.of_nat 0) mod 16)).
+    { destruct Hk as [-> | [-> | ->]]; cbn [digit_of]; apply hexval_hexd; apply N.mod_lt; discriminate. }
+    rewrite Hd.
+    assert (Hb : base_of k = 16) by (destruct Hk as [-> | [-> | ->]]; reflexivity). rewrite Hb.
+    replace (16 * acc + (v / 16 ^ N.of_nat 0) mod 16) with (acc * 16 ^ N.of_nat 1 + v mod 16 ^ N.of_nat 1)
+      by (cbn [N.of_nat Pos.of_succ_nat]; change (16 ^ 0) with 1; change (16 ^ 1) with 16; rewrite N.div_1_r; lia).
+    rewrite He. rewrite app_nil_r. reflexivity.
+  - change (hex_fixed (S (S w)) v) with (hexd ((v / 16 ^ N.of_nat (S w)) mod 16) :: hex_fixed (S w) v).
+    cbn [usteps step].
+    assert (Hd : digit_of k (hexd ((v / 16 ^ N.of_nat (S w)) mod 16)) = Some ((v / 16 ^ N.of_nat (S w)) mod 16)).
+    { destruct Hk as [-> | [-> | ->]]; cbn [digit_of]; apply hexval_hexd; apply N.mod_lt; discriminate. }
+    rewrite Hd.
+    assert (Hb : base_of k = 16) by (destruct Hk as [-> | [-> | ->]]; reflexivity). rewrite Hb.
+    rewrite (IH (16 * acc + (v / 16 ^ N.of_nat (S w)) mod 16) (S nd) Hk); [reflexivity|].
+    rewrite <- He. f_equal.
+    rewrite (pow16_succ (S w)). rewrite (mod_pow16_succ v (S w)). 
+    set (p := 16 ^ N.of_nat (S w)). lia.
+Qed.
+
+Definition st_of (last : bool) : ustate := if last then UAnsiXDone else UAnsi.
+Definition ansi_safe (c : N) : Prop := c <> 39 /\ c <> 92.
+
+Lemma ansi_plain_safe : forall c, ansi_safe c -> ansi_plain c = Some (UAnsi, [c]).
+Proof.
+  intros c [H1 H2]. unfold ansi_plain.
+  destruct (c =? 39) eqn:E1; [lia|]. destruct (c =? 92) eqn:E2; [lia|]. reflexivity.
+Qed.
+
+Lemma ansi_plain_run : forall l bs, Forall ansi_safe bs -> usteps l UAnsi bs = Some (UAnsi, bs).
+Proof.
+  intros l. apply usteps_plain. intros c Hc. cbn [step]. apply ansi_plain_safe. exact Hc.
+Qed.
+
+Lemma xdone_run : forall l b rest, is_hex b = false -> Forall ansi_safe (b :: rest) ->
+  usteps l UAnsiXDone (b :: rest) = Some (UAnsi, b :: rest).
+Proof.
+  intros l b rest Hh HF. inversion HF; subst. cbn [usteps step]. rewrite Hh.
+  rewrite (ansi_plain_safe b) by assumption. rewrite (ansi_plain_run l rest) by assumption. reflexivity.
+Qed.
+
+Lemma is_hex_small : forall c, is_hex c = true -> c < 128.
+Proof. intros c H. unfold is_hex, in_range in H. lia. Qed.
+
+Lemma is_hex_high : forall c, 128 <= c -> is_hex c = false.
+Proof. intros c H. unfold is_hex, in_range. lia. Qed.
+
+Lemma st_of_backslash : forall l last, step l (st_of last) 92 = Some (UAnsiBs, []).
+Proof. intros l [|]; reflexivity. Qed.
+
+Section WithPrint3.
+  Variable ip : N -> bool.
+
+  Lemma ansi_entry : forall l r bs last out next,
+    entry_ok (r, bs) -> r <> 0 -> Forall (fun b => b < 256) bs -> (last = true -> is_mksh l = true) ->
+    ansi_rune ip l r bs last = Ok (out, next) ->
+    usteps l (st_of last) out = Some (st_of next, bs) /\ (next = true -> is_mksh l = true).
+  Proof.
+    intros l r bs last out next Hok Hr0 Hb Hlast H. unfold ansi_rune in H.
+    destruct ((r =? 39) || (r =? 92)) eqn:Eq.
+    { (* \' and \\ *)
+      inversion H; subst; clear H. split; [|discriminate].
+      destruct (entry_bytes r bs Hok) as [[_ ->] | [Hh _]]; [|lia].
+      assert (r = 39 \/ r = 92) as [-> | ->] by lia; destruct last; reflexivity. }
+    destruct (ip r && negb (invalid_rune r bs)) eqn:Epr.
+    { (* printable *)
+      inversion H; subst; clear H. split; [|discriminate].
+      apply andb_true_iff in Epr. destruct Epr as [_ Hinv]. apply negb_true_iff in Hinv.
+      destruct (entry_valid r bs Hok Hinv) as [He Hc]. rewrite He.
+      assert (Hsafe : Forall ansi_safe bs).
+      { destruct Hc as [[_ ->] | [_ Hh]].
+        - constructor; [|constructor]. unfold ansi_safe. lia.
+        - eapply Forall_impl; [|exact Hh]. intros b Hb'. cbv beta in Hb'. unfold ansi_safe. lia. }
+      destruct (last && is_hex r) eqn:Erq.
+      - apply andb_true_iff in Erq. destruct Erq as [-> Hhex].
+        assert (Hm := Hlast eq_refl). destruct l; try discriminate.
+        destruct Hc as [[_ ->] | [Hh _]]; [|apply is_hex_small in Hhex; lia].
+        cbn [st_of].
+        apply (usteps_app LMksh [39; 36; 39] [r] UAnsiXDone UAnsi [] UAnsi [r]); [reflexivity|].
+        apply ansi_plain_run. assumption.
+      - cbn [app]. destruct last; cbn [st_of]; [|apply ansi_plain_run; assumption].
+        cbn [andb] in Erq.
+        destruct Hc as [[_ ->] | [_ Hh]].
+        + apply xdone_run; assumption.
+        + destruct bs as [|b0 rest]; [destruct Hok as [Hne _]; cbn in Hne; congruence|].
+          apply xdone_run; [|assumption]. inversion Hh; subst. apply is_hex_high. assumption. }
+    assert (Hctl : forall c x, r = c -> c < 128 -> (forall la, usteps l (st_of la) [92; x] = Some (st_of false, [c])) ->
+                   Ok ([92; x], false) = Ok (out, next) ->
+                   usteps l (st_of last) out = Some (st_of next, bs) /\ (next = true -> is_mksh l = true)).
+    { intros c x -> Hc Hrun Heq. inversion Heq; subst. split; [|discriminate].
+      destruct (entry_bytes c bs Hok) as [[_ ->] | [Hh _]]; [|lia]. apply Hrun. }
+    destruct (r =? 7) eqn:E7; [apply (Hctl 7 97); [lia | lia | intros [|]; reflexivity | exact H]|].
+    destruct (r =? 8) eqn:E8; [apply (Hctl 8 98); [lia | lia | intros [|]; reflexivity | exact H]|].
+    destruct (r =? 12) eqn:E12; [apply (Hctl 12 102); [lia | lia | intros [|]; reflexivity | exact H]|].
+    destruct (r =? 10) eqn:E10; [apply (Hctl 10 110); [lia | lia | intros [|]; reflexivity | exact H]|].
+    destruct (r =? 13) eqn:E13; [apply (Hctl 13 114); [lia | lia | intros [|]; reflexivity | exact H]|].
+    destruct (r =? 9) eqn:E9; [apply (Hctl 9 116); [lia | lia | intros [|]; reflexivity | exact H]|].
+    destruct (r =? 11) eqn:E11; [apply (Hctl 11 118); [lia | lia | intros [|]; reflexivity | exact H]|].
+    clear Hctl.
+    destruct ((r <? RuneSelf) || invalid_rune r bs) eqn:Ex.
+    { (* \xHH *)
+      inversion H; subst; clear H.
+      assert (Hb0 : exists b0, bs = [b0] /\ b0 <> 0 /\ b0 < 256).
+      { destruct (invalid_rune r bs) eqn:Einv.
+        - unfold invalid_rune in Einv. apply andb_true_iff in Einv. destruct Einv as [E1 E2].
+          apply Nat.eqb_eq in E2. destruct Hok as [_ D]; cbn [fst snd] in D. rewrite E2 in D.
+          destruct (decode_size1 bs r D) as (b & t & -> & Hc). cbn in E2.
+          assert (t = []) by (destruct t; [reflexivity | discriminate]); subst t.
+          exists b. inversion Hb; subst. split; [reflexivity|]. split; [|assumption].
+          destruct Hc as [[-> _] | [_ Hh]]; lia.
+        - destruct (entry_bytes r bs Hok) as [[Hs ->] | [Hh _]]; [|unfold RuneSelf in Ex; lia].
+          exists r. inversion Hb; subst. auto. }
+      destruct Hb0 as (b0 & -> & Hnz & Hlt). cbn [hd].
+      split; [|intros E; exact E].
+      replace (st_of (is_mksh l)) with (after_emit l KX) by (unfold after_emit, st_of; destruct (is_mksh l); reflexivity).
+      apply (usteps_app l [92; 120] (hex_fixed 2 b0) (st_of last) (UAnsiNum KX 2 0 0) [] (after_emit l KX) [b0]).
+      - destruct last; reflexivity.
+      - apply hex_run; [left; reflexivity|].
+        change (16 ^ N.of_nat 2) with 256. rewrite N.mod_small by assumption.
+        unfold emit. destruct (0 * 256 + b0 =? 0) eqn:E0; [lia|]. f_equal. f_equal.
+        rewrite N.mod_small; lia. }
+    destruct (MaxRune <? r) eqn:Emax; [discriminate|].
+    destruct (is_mksh l && (65533 <? r)) eqn:Emk; [discriminate|].
+    apply orb_false_iff in Ex. destruct Ex as [Hge Hinv].
+    destruct (entry_valid r bs Hok Hinv) as [He _].
+    destruct (r <? 65536) eqn:Eu.
+    - (* \uHHHH *)
+      injection H as <- <-. split; [|discriminate].
+      apply (usteps_app l [92; 117] (hex_fixed 4 r) (st_of last) (UAnsiNum KU 4 0 0) [] (after_emit l KU) bs).
+      + destruct last; reflexivity.
+      + apply hex_run; [right; left; reflexivity|].
+        change (16 ^ N.of_nat 4) with 65536. rewrite N.mod_small by lia.
+        unfold emit. destruct (0 * 65536 + r =? 0) eqn:E0; [lia|]. rewrite <- He. reflexivity.
+    - (* \UHHHHHHHH *)
+      injection H as <- <-. split; [|discriminate].
+      apply (usteps_app l [92; 85] (hex_fixed 8 r) (st_of last) (UAnsiNum KBigU 8 0 0) [] (after_emit l KBigU) bs).
+      + destruct last; reflexivity.
+      + apply hex_run; [right; right; reflexivity|].
+        change (16 ^ N.of_nat 8) with 4294967296. unfold MaxRune in Emax. rewrite N.mod_small by lia.
+        unfold emit. destruct (0 * 4294967296 + r =? 0) eqn:E0; [lia|]. rewrite <- He. reflexivity.
+  Qed.
+End WithPrint3.
+
+Lemma Forall_concat_inv : forall (P : N -> Prop) (ls : list str),
+  Forall P (concat ls) -> Forall (Forall P) ls.
+Proof.
+  induction ls as [|x ls IH]; intros H; [constructor|].
+  cbn [concat] in H. apply Forall_app in H. destruct H. constructor; [assumption | apply IH; assumption].
+Qed.
+
+Lemma st_of_close : forall l last, usteps l (st_of last) [39] = Some (UTop, []).
+Proof. intros l [|]; reflexivity. Qed.
+
+Section Main.
+  Variable ip : N -> bool.
+
+  Lemma ansi_run : forall l rs offs last body,
+    Forall entry_ok rs -> has0 rs = false -> Forall (fun e => Forall (fun b => b < 256) (snd e)) rs ->
+    (last = true -> is_mksh l = true) ->
+    ansi ip l rs offs last = Ok body ->
+    exists last', usteps l (st_of last) body = Some (st_of last', concat (map snd rs)).
+  Proof.
+    induction rs as [|[r bs] rs IH]; intros offs last body Hok H0 Hb Hl H; cbn [ansi map concat snd] in *.
+    - injection H as <-. exists last. reflexivity.
+    - inversion Hok as [|? ? H2 H3]; subst. inversion Hb as [|? ? H4 H5]; subst. cbn [snd] in *.
+      cbn [has0 existsb fst] in H0. apply orb_false_iff in H0. destruct H0 as [Hr0 H0].
+      destruct (ansi_rune ip l r bs last) as [[out next]| |] eqn:Er; try discriminate.
+      destruct (ansi ip l rs (offs + N.of_nat (length bs)) next) as [t| |] eqn:Et; try discriminate.
+      injection H as <-.
+      destruct (ansi_entry ip l r bs last out next H2 ltac:(lia) H4 Hl Er) as [Hs Hn].
+      destruct (IH _ next t H3 H0 H5 Hn Et) as [last' Hs'].
+      exists last'. eapply usteps_app; eassumption.
+  Qed.
+
+  Lemma urun_whole : forall l st q o, usteps l st q = Some (UTop, o) -> urun l st q = Some o.
+  Proof.
+    intros l st q o H. rewrite <- (app_nil_r q). rewrite (urun_app l q [] st UTop o H). cbn. rewrite app_nil_r. reflexivity.
+  Qed.
+
+  Theorem quote_roundtrip : forall s l q, bytes_ok s -> quote ip s l = Ok q -> unquote l q = Some s.
+  Proof.
+    intros s l q Hb H. destruct s as [|b0 t].
+    { cbn in H. injection H as <-. reflexivity. }
+    remember (b0 :: t) as s eqn:Hs. unfold quote in H. rewrite Hs in H at 1. cbv iota beta in H.
+    destruct (scan ip l (runes s) 0 false false) as [[sc np]| |] eqn:Esc; try discriminate.
+    apply scan_ok in Esc. destruct Esc as (H0 & Hsc & Hnp & Hpos). cbn [orb] in Hsc, Hnp.
+    destruct (negb sc && negb np && negb (is_keyword s)) eqn:E1.
+    { (* unquoted *)
+      injection H as <-. apply andb_true_iff in E1. destruct E1 as [E1 _]. apply andb_true_iff in E1. destruct E1 as [E1 _].
+      apply negb_true_iff in E1. rewrite Hsc in E1.
+      unfold unquote. apply urun_whole. apply top_plain.
+      rewrite <- (runes_concat s). apply entries_not_special; [apply runes_ok | exact E1]. }
+    destruct np.
+    { (* $'...' *)
+      destruct (ansi ip l (runes s) 0 false) as [body| |] eqn:Ea; try discriminate.
+      injection H as <-.
+      assert (Hp : is_posix l = false).
+      { destruct (is_posix l); [|reflexivity]. rewrite (Hpos eq_refl) in Hnp. discriminate. }
+      assert (HB : Forall (fun e => Forall (fun b => b < 256) (snd e)) (runes s)).
+      { apply Forall_map with (f := snd) (P := Forall (fun b => b < 256)). apply Forall_concat_inv. rewrite runes_concat. exact Hb. }
+      destruct (ansi_run l (runes s) 0 false body (runes_ok s) H0 HB ltac:(discriminate) Ea) as [last' Hrun].
+      unfold unquote. apply urun_whole.
+      apply (usteps_app l [36; 39] (body ++ [39]) UTop UAnsi [] UTop s).
+      - cbn [usteps step]. cbn. rewrite Hp. reflexivity.
+      - assert (Hfin : usteps l UAnsi (body ++ [39]) = Some (UTop, concat (map snd (runes s)) ++ [])).
+        { eapply usteps_app; [exact Hrun | apply st_of_close]. }
+        rewrite app_nil_r, runes_concat in Hfin. exact Hfin. }
+    destruct (negb (contains_byte 39 s)) eqn:E39.
+    { injection H as <-. apply unquote_single. apply negb_true_iff. exact E39. }
+    injection H as <-. apply (unquote_double ip). symmetry. exact Hnp.
+  Qed.
+
+  (* ---------------- error characterisation ---------------- *)
+
+  Lemma ansi_rune_not_panic : forall l r bs last, ansi_rune ip l r bs last <> Panic.
+  Proof.
+    intros. unfold ansi_rune.
+    repeat match goal with |- context [if ?c then _ else _] => destruct c end; discriminate.
+  Qed.
+
+  Lemma ansi_not_panic : forall l rs offs last, ansi ip l rs offs last <> Panic.
+  Proof.
+    induction rs as [|[r bs] rs IH]; intros; cbn [ansi]; [discriminate|].
+    destruct (ansi_rune ip l r bs last) as [[out next]| |] eqn:E.
+    - specialize (IH (offs + N.of_nat (length bs)) next). destruct (ansi ip l rs _ next); [discriminate | discriminate | congruence].
+    - discriminate.
+    - exfalso. exact (ansi_rune_not_panic _ _ _ _ E).
+  Qed.
+
+  Lemma ansi_rune_err_iff : forall l r bs last, entry_ok (r, bs) ->
+    ((exists c, ansi_rune ip l r bs last = Err c) <-> (is_mksh l = true /\ 65533 < r /\ ip r = false)).
+  Proof.
+    intros l r bs last Hok. destruct Hok as [Hne D]; cbn [fst snd] in *.
+    destruct (decode_range bs r _ D) as [Hmax _]. unfold MaxRune in Hmax.
+    unfold ansi_rune, RuneSelf, MaxRune, invalid_rune, RuneError. split.
+    - intros [c H].
+      repeat match type of H with context [if ?c then _ else _] => destruct c eqn:? end; try discriminate; try lia.
+    - intros (Hm & Hr & Hp). rewrite Hm, Hp.
+      repeat match goal with |- context [if ?c then _ else _] => destruct c eqn:? end; try lia; eexists; reflexivity.
+  Qed.
+
+  Definition hasbig (rs : list (N * str)) : bool := existsb (fun e => (65533 <? fst e) && negb (ip (fst e))) rs.
+
+  Lemma ansi_err_iff : forall l rs offs last, Forall entry_ok rs ->
+    ((exists c, ansi ip l rs offs last = Err c) <-> (is_mksh l = true /\ hasbig rs = true)).
+  Proof.
+    induction rs as [|[r bs] rs IH]; intros offs last Hok; cbn [ansi hasbig existsb fst].
+    - split; [intros [c H]; discriminate | intros [_ H]; discriminate].
+    - inversion Hok as [|? ? H1 H2]; subst. fold (hasbig rs).
+      assert (Hr := ansi_rune_err_iff l r bs last H1).
+      destruct (ansi_rune ip l r bs last) as [[out next]| |] eqn:E.
+      + assert (Hno : ~ (is_mksh l = true /\ 65533 < r /\ ip r = false)).
+        { intros Hc. apply Hr in Hc. destruct Hc; discriminate. }
+        specialize (IH (offs + N.of_nat (length bs)) next H2).
+        destruct (ansi ip l rs (offs + N.of_nat (length bs)) next) as [t| |] eqn:Et.
+        * split; [intros [c H]; discriminate|]. intros [Hm Hbig]. apply orb_true_iff in Hbig. destruct Hbig as [Hbig | Hbig].
+          -- exfalso. apply Hno. split; [assumption|]. apply andb_true_iff in Hbig. destruct Hbig as [A B]. apply negb_true_iff in B. split; [lia | assumption].
+          -- destruct IH as [_ IH]. destruct (IH (conj Hm Hbig)); discriminate.
+        * split; [|intros _; eexists; reflexivity]. intros _. destruct IH as [IH _]. destruct (IH (ex_intro _ code eq_refl)) as [Hm Hb]. split; [assumption|]. rewrite Hb. apply orb_true_r.
+        * exfalso. exact (ansi_not_panic _ _ _ _ Et).
+      + split; [|intros _; eexists; reflexivity]. intros _. destruct Hr as [Hr _]. destruct (Hr (ex_intro _ code eq_refl)) as (Hm & A & B).
+        split; [assumption|]. apply orb_true_iff. left. rewrite B. cbn. lia.
+      + exfalso. exact (ansi_rune_not_panic _ _ _ _ E).
+  Qed.
+
+  Lemma hasbig_hasnp : forall rs, hasbig rs = true -> hasnp ip rs = true.
+  Proof.
+    induction rs as [|[r bs] rs IH]; cbn [hasbig hasnp existsb fst snd]; [discriminate|].
+    intros H. apply orb_true_iff in H. apply orb_true_iff. destruct H as [H | H]; [left | right; apply IH; exact H].
+    apply andb_true_iff in H. destruct H as [_ B]. unfold non_print. rewrite B. apply orb_true_r.
+  Qed.
+
+  Lemma quote_not_panic : forall s l, quote ip s l <> Panic.
+  Proof.
+    intros s l. unfold quote. destruct s as [|b0 t]; [discriminate|].
+    destruct (scan ip l (runes (b0 :: t)) 0 false false) as [[sc np]| |] eqn:E; [|discriminate|exact (fun _ => scan_not_panic _ _ _ _ _ _ E)].
+    destruct (negb sc && negb np && negb (is_keyword (b0 :: t))); [discriminate|].
+    destruct np.
+    - destruct (ansi ip l (runes (b0 :: t)) 0 false) eqn:Ea; [discriminate | discriminate | exact (fun _ => ansi_not_panic _ _ _ _ Ea)].
+    - destruct (negb (contains_byte 39 (b0 :: t))); discriminate.
+  Qed.
+
+  Lemma quote_err_bool : forall s l,
+    (exists c, quote ip s l = Err c) <->
+    (has0 (runes s) = true \/ (is_posix l = true /\ hasnp ip (runes s) = true)
+     \/ (is_mksh l = true /\ hasbig (runes s) = true)).
+  Proof.
+    intros s l. destruct s as [|b0 t].
+    { cbn. split; [intros [c H]; discriminate | intros [H | [[_ H] | [_ H]]]; discriminate]. }
+    unfold quote. cbv iota beta. set (s := b0 :: t).
+    assert (Hse := scan_err_iff ip l (runes s) 0 false false).
+    destruct (scan ip l (runes s) 0 false false) as [[sc np]| |] eqn:Esc.
+    - assert (Hno : ~ (has0 (runes s) = true \/ is_posix l = true /\ hasnp ip (runes s) = true)).
+      { intros Hc. apply Hse in Hc. destruct Hc; discriminate. }
+      apply scan_ok in Esc. destruct Esc as (H0 & Hsc & Hnp & Hpos). cbn [orb] in Hsc, Hnp.
+      assert (Hae := ansi_err_iff l (runes s) 0 false (runes_ok s)).
+      cbv iota beta. split.
+      + intros [c H]. right. right.
+        destruct (negb sc && negb np && negb (is_keyword s)); [discriminate|].
+        destruct np; [|destruct (negb (contains_byte 39 s)); discriminate].
+        apply Hae. destruct (ansi ip l (runes s) 0 false); try discriminate. eexists; reflexivity.
+      + intros [H | [H | [Hm Hbig]]]; [exfalso; apply Hno; left; exact H | exfalso; apply Hno; right; exact H |].
+        assert (Ht : hasnp ip (runes s) = true) by (apply hasbig_hasnp; exact Hbig).
+        rewrite Hnp, Ht. cbn [negb]. rewrite andb_false_r. cbn [andb].
+        destruct Hae as [_ Hae]. destruct (Hae (conj Hm Hbig)) as [c Hc]. rewrite Hc. eexists; reflexivity.
+    - split; [|intros _; eexists; reflexivity]. intros _.
+      destruct Hse as [Hse _]. destruct (Hse (ex_intro _ code eq_refl)) as [H | H]; [left | right; left]; exact H.
+    - exfalso. exact (scan_not_panic _ _ _ _ _ _ Esc).
+  Qed.
+
+  Lemma has0_iff : forall s, has0 (runes s) = true <-> In 0 s.
+  Proof.
+    intros s. rewrite <- (runes_concat s) at 2. assert (Hok := runes_ok s).
+    induction (runes s) as [|[r bs] rs IH]; cbn [has0 existsb map concat fst snd].
+    - split; [discriminate | intros []].
+    - inversion Hok as [|? ? H1 H2]; subst. fold (has0 rs). rewrite orb_true_iff, in_app_iff, (IH H2).
+      assert (Hr : (r =? 0) = true <-> In 0 bs).
+      { destruct (entry_bytes r bs H1) as [[Hs ->] | [Hh HF]].
+        - cbn [In]. split; [intros E; left; lia | intros [E | []]; lia].
+        - split; [intros E; lia|]. intros Hin. rewrite Forall_forall in HF. specialize (HF 0 Hin). cbv beta in HF. lia. }
+      rewrite Hr. reflexivity.
+  Qed.
+
+  Theorem quote_err_iff : forall s l,
+    (exists c, quote ip s l = Err c) <->
+    (In 0 s
+     \/ (is_posix l = true /\ exists e, In e (runes s) /\ non_print ip (fst e) (snd e) = true)
+     \/ (is_mksh l = true /\ exists r, In r (rune_values s) /\ 65533 < r /\ ip r = false)).
+  Proof.
+    intros s l. rewrite quote_err_bool, has0_iff. unfold hasnp, hasbig, rune_values.
+    rewrite !existsb_exists.
+    assert (Hb : (exists x, In x (runes s) /\ (65533 <? fst x) && negb (ip (fst x)) = true) <->
+                 (exists r, In r (map fst (runes s)) /\ 65533 < r /\ ip r = false)).
+    { split.
+      - intros [x [Hin Hx]]. exists (fst x). split; [apply in_map; exact Hin|].
+        apply andb_true_iff in Hx. destruct Hx as [A B]. apply negb_true_iff in B. split; [lia | assumption].
+      - intros [r [Hin [A B]]]. apply in_map_iff in Hin. destruct Hin as [x [<- Hin]]. exists x. split; [assumption|].
+        rewrite B. cbn. lia. }
+    rewrite Hb. reflexivity.
+  Qed.
+
+  (* ---------------- shape of the result ---------------- *)
+
+  Theorem quote_shape : forall s l q, quote ip s l = Ok q ->
+    (q = s /\ s <> [] /\ Forall (fun c => word_special c = false) s /\ is_keyword s = false)
+    \/ (exists body, q = [39] ++ body ++ [39] \/ q = [34] ++ body ++ [34] \/ q = [36; 39] ++ body ++ [39]).
+  Proof.
+    intros s l q H. destruct s as [|b0 t].
+    { cbn in H. injection H as <-. right. exists []. left. reflexivity. }
+    remember (b0 :: t) as s eqn:Hs. unfold quote in H. rewrite Hs in H at 1. cbv iota beta in H.
+    destruct (scan ip l (runes s) 0 false false) as [[sc np]| |] eqn:Esc; try discriminate.
+    apply scan_ok in Esc. destruct Esc as (H0 & Hsc & Hnp & Hpos). cbn [orb] in Hsc, Hnp.
+    destruct (negb sc && negb np && negb (is_keyword s)) eqn:E1.
+    { injection H as <-. left. apply andb_true_iff in E1. destruct E1 as [E1 Ek]. apply andb_true_iff in E1. destruct E1 as [E1 _].
+      apply negb_true_iff in E1, Ek. rewrite Hsc in E1. split; [reflexivity|]. split; [rewrite Hs; discriminate|]. split; [|exact Ek].
+      rewrite <- (runes_concat s). apply entries_not_special; [apply runes_ok | exact E1]. }
+    right. destruct np.
+    - destruct (ansi ip l (runes s) 0 false) as [body| |]; try discriminate. injection H as <-. exists body. right. right. reflexivity.
+    - destruct (negb (contains_byte 39 s)); injection H as <-; eexists; [left | right; left]; reflexivity.
+  Qed.
+End Main.
+
+(* ------------------------------------------------------------------ *)
+(* non-vacuity: concrete evaluations with a simple printable predicate *)
+Definition ex_print (r : N) : bool := in_range 32 126 r || in_range 161 55295 r || in_range 57344 65533 r.
+
+Lemma ex_unquoted : quote ex_print [97; 46; 98] LBash = Ok [97; 46; 98].
+Proof. vm_compute. reflexivity. Qed.
+Lemma ex_keyword : quote ex_print [105; 102] LPosix = Ok [39; 105; 102; 39].            (* if -> 'if' *)
+Proof. vm_compute. reflexivity. Qed.
+Lemma ex_single : quote ex_print [97; 32; 36; 98] LPosix = Ok [39; 97; 32; 36; 98; 39].  (* a $b -> 'a $b' *)
+Proof. vm_compute. reflexivity. Qed.
+Lemma ex_double : quote ex_print [97; 39; 36; 195; 169] LPosix = Ok [34; 97; 39; 92; 36; 195; 169; 34]. (* a'$e-acute *)
+Proof. vm_compute. reflexivity. Qed.
+Lemma ex_ansi : quote ex_print [97; 10; 255; 39] LBash = Ok [36; 39; 97; 92; 110; 92; 120; 102; 102; 92; 39; 39]. (* $'a\n\xff\'' *)
+Proof. vm_compute. reflexivity. Qed.
+Lemma ex_mksh_requote : quote ex_print [27; 97] LMksh = Ok [36; 39; 92; 120; 49; 98; 39; 36; 39; 97; 39].   (* $'\x1b'$'a' *)
+Proof. vm_compute. reflexivity. Qed.
+Lemma ex_unicode : quote ex_print [194; 128; 240; 144; 128; 128] LZsh
+  = Ok [36; 39; 92; 117; 48; 48; 56; 48; 92; 85; 48; 48; 48; 49; 48; 48; 48; 48; 39].  (* $' \U00010000' *)
+Proof. vm_compute. reflexivity. Qed.
+Lemma ex_roundtrip_ansi : unquote LMksh [36; 39; 92; 120; 49; 98; 39; 36; 39; 97; 39] = Some [27; 97].
+Proof. vm_compute. reflexivity. Qed.
+Lemma ex_unquote_rejects_mksh_hex : unquote LMksh [36; 39; 92; 120; 49; 98; 97; 39] = None   (* $'\x1ba' *)
+  /\ unquote LBash [36; 39; 92; 120; 49; 98; 97; 39] = Some [27; 97].
+Proof. vm_compute. split; reflexivity. Qed.
+Lemma ex_err_null : quote ex_print [97; 0] LBash = Err (8 * 1 + E_NULL).
+Proof. vm_compute. reflexivity. Qed.
+Lemma ex_err_posix : quote ex_print [97; 98; 10] LPosix = Err (8 * 2 + E_POSIX).
+Proof. vm_compute. reflexivity. Qed.
+Lemma ex_err_mksh : quote ex_print [97; 240; 144; 128; 128] LMksh = Err (8 * 1 + E_MKSH).
+Proof. vm_compute. reflexivity. Qed.
+Lemma ex_ufffd_posix : quote ex_print [239; 191; 189] LPosix = Ok [239; 191; 189].   (* valid U+FFFD is printable here *)
+Proof. vm_compute. reflexivity. Qed.
